@@ -40,6 +40,11 @@ type VerifRQParams struct {
 	Long                            []bool // per item: the turn takes simulated time
 	Burst                           []int  // per worker: extra pushLocal burst issued from inside a turn (overflow path)
 	CloseEarly                      bool   // close while items may still be queued
+	// Rotate pre-positions the (empty) rings' cursors: worker w's local ring starts with
+	// head = tail = Rotate[w] mod capacity and the global ring with Rotate[Workers], the state
+	// they are in after that many push/take cycles. Without it the wrap-around of a ring of the
+	// stock capacity (256) is out of reach of a run of a few dozen operations.
+	Rotate []int
 }
 
 func VerifLocalQueueCap() int       { return localQueueCap }
@@ -65,6 +70,16 @@ func (v *VerifRQ) Run(p VerifRQParams) {
 	v.NW = nw
 	rq := newReadyQueue(nw)
 	verifSortLocals(rq)
+	for w, l := range rq.locals {
+		if w < len(p.Rotate) {
+			l.head = p.Rotate[w] % len(l.buf)
+			l.tail = l.head
+		}
+	}
+	if nw < len(p.Rotate) && len(rq.global.buf) > 0 {
+		rq.global.head = p.Rotate[nw] % len(rq.global.buf)
+		rq.global.tail = rq.global.head
+	}
 	v.rq = rq
 	total := p.Producers * p.PerProducer
 	extra := 0
